@@ -377,7 +377,20 @@ def propWr (args : List String) (impl : String) : String :=
             | none => "n/a"
             | some fits =>
               if results.any (· != "ok") then "fail:accepted-input-failed"
-              else if unhex out == some (c.pre ++ encodeChain c.o fits) then "ok" else "fail:bytes-differ-from-spec"
+              else if unhex out != some (c.pre ++ encodeChain c.o fits) then "fail:bytes-differ-from-spec"
+              -- C02: the library's own integrity check accepts the stream and counts the same number of sequences
+              -- (`C02_integrity_accepts`; behind a prefix the check accepts with n sequences the counts add up: `C04_append`;
+              -- behind any other prefix the check fails whatever follows, nothing is demanded)
+              else if fits.isEmpty then "ok"
+              else
+                let want : Option Nat :=
+                  if c.pre.isEmpty then some fits.length
+                  else match Fit.Integrity.checkIntegrity c.pre with
+                    | .ok n => some (n + fits.length)
+                    | .err _ _ => none
+                match want with
+                | some n => if ci == s!"ok:{n}" then "ok" else s!"fail:integrity-check:want=ok:{n}"
+                | none => "ok"
       | _, _, _, _ => "fail:answer"
 
 def propWrX (args : List String) (impl : String) : String :=
